@@ -4,8 +4,8 @@
 From LexVerif Require Import Base CharClass RangeMap Regex Spec SpecExec LexSpec Nfa Dfa NfaToDfa NfaSem Codegen
      Runtime ScanIface RulesetSem Driver SpecDef ClassAlgProofs RuntimeProofs RuntimeLemmas ScanOkProofs
      RulesetSemProofs LexSpecProofs LexSpecFacts SpecInvariants EndToEnd EndToEndModel Instance Harness
-     GenCode GenCodeProofs GenCodeChecks.
-From LexVerif.Gen Require Import GenTables GenConsts.
+     GenCode GenCodeProofs GenCodeChecks GenUtilProofs.
+From LexVerif.Gen Require Import GenTables GenConsts GenUtil.
 
 Theorem c15_snapshot : forall (width : N -> N) (tab_width : N) (T E U : Type) (prog : program)
     (actions : nat -> action T E U) (fuel : positive) (a b : nat) (l : lexer U),
@@ -142,6 +142,44 @@ Proof. exact generated_code_correct_model. Qed.
 Theorem c15_generated_code_side_condition : forall p, chars_nodup_b p = true -> chars_nodup p.
 Proof. exact chars_nodup_b_sound. Qed.
 
+(* ------------------------------------------------------------------------------------------
+   The run-time library. gen/GenUtil.v is the translation of crates/lexgen_util/src/lib.rs, regenerated on every
+   run (harness/gen_util.py, statement by statement); the methods generated code calls are exactly the operations
+   the interpreter and the generated-code semantics use: reading a character with its location update (tab width
+   as found in the source), the rewind point, backtrack() in both outcomes, reset_match, and the constructors. *)
+Theorem c15_library_next : forall (width : N -> N) (U : Type) (l : lexer U),
+  util_next width U l = read_char width TAB_WIDTH U l.
+Proof. exact util_next_ok. Qed.
+
+Theorem c15_library_backtrack : forall (T E U : Type) (prog : program) (actions : nat -> action T E U) (l : lexer U),
+  exec_backtrack T E U prog actions l =
+  match util_backtrack U l with
+  | (inl loc, l1) => inr (OItem T E (IInvalid loc), reset_match U l1)
+  | (inr a, l1) => run_action T E U prog actions l1 a
+  end.
+Proof. exact util_backtrack_ok. Qed.
+
+Theorem c15_library_rewind_point : forall (U : Type) (l : lexer U) (a : nat),
+  util_set_accepting_state U l a = set_last U l (Some (l_mstart U l, l_iter U l, a, l_mend U l)) /\
+  util_reset_accepting_state U l = set_last U l None /\
+  util_reset_match U l = reset_match U l /\
+  util_match_loc U l = (l_mstart U l, l_mend U l) /\
+  util_peek U l = hd_error (l_iter U l).
+Proof. intros U l a. repeat split. Qed.
+
+Theorem c15_library_constructors : forall (U : Type) (input : list N) (u : U),
+  util_new_with_state U input u = lexer_new U input u true /\
+  util_new_from_iter_with_state U input u = lexer_new U input u false.
+Proof. intros U input u. split; reflexivity. Qed.
+
+Theorem c15_library_match_text : forall (U : Type) (l : lexer U) (inp : list N),
+  l_input U l = Some inp ->
+  make_view U l = match util_match_ U l with
+                  | Some t => Ok (mkView t (l_mstart U l) (l_mend U l) (util_peek U l))
+                  | None => Panic TagSlice
+                  end.
+Proof. exact util_match_ok. Qed.
+
 Print Assumptions c15_snapshot.
 Print Assumptions c15_after_none.
 Print Assumptions c15_spec_deterministic.
@@ -152,3 +190,8 @@ Print Assumptions c15_ruleset_sem.
 Print Assumptions c15_generated_next.
 Print Assumptions c15_generated_code_stream.
 Print Assumptions c15_generated_code_side_condition.
+Print Assumptions c15_library_next.
+Print Assumptions c15_library_backtrack.
+Print Assumptions c15_library_rewind_point.
+Print Assumptions c15_library_constructors.
+Print Assumptions c15_library_match_text.
